@@ -23,18 +23,23 @@ RULE = ("quantities of quantized (DataVolume, Money, synthetic) and "
 ANCHORS = ("Quantity.allocate", "sum")
 
 
-def alloc_sub(chk, rng, w, wid, mode, plan=None):
+def alloc_sub(chk, rng, w, wid, mode, plan=None, unit=None):
     units = [s for s in w.units
              if w.types[w.units[s].tname].has_ref or
              w.quantum_of(s) is not None]
     quantized_units = [s for s in units if w.quantum_of(s) is not None]
-    if quantized_units and rng.random() < 0.65:
+    if unit is not None:
+        u = unit
+    elif quantized_units and rng.random() < 0.65:
         u = rng.choice(quantized_units)
     else:
         u = rng.choice(units)
     q = w.quantum_of(u)
     r = rng.random()
-    if q is not None and r < 0.2:
+    if unit is not None and r < 0.5:
+        # whole numbers of a unit whose grid they are not on
+        x = F(rng.randint(1, 40))
+    elif q is not None and r < 0.2:
         x = rng.choice([1, -1, 2, 3, 7]) * q
     elif q is not None and r < 0.5:
         x = tie_amount(rng, q)
@@ -279,3 +284,29 @@ def run(chk, R, tier, seed):
                 for j in range(16)]
         cases.append(world_program(chk, plan, subs, wid))
     run_cases(chk, R, cases, preload=("quantity",))
+    # units declared LATE in a quantized type that has been in use for a
+    # while (quantities of DataVolume exist since the import): the grid of
+    # the new unit is its own -- whole numbers of it are mostly off it
+    from ..gen import Decl
+    cases = []
+    for li in range(30 if tier == "quick" else 300):
+        wl = predefined_world({})
+        k = rng.choice([F(1, 10), F(3), F(3, 10), F(7), F(1, 3), F(12)])
+        par = rng.choice(["B", "kB", "b"])
+        sym = "late%d" % li
+        d = Decl("term", t="DataVolume", sym=sym, kkind=None,
+                 items=[(("n", k), 1), (("u", par), 1)])
+        d.apply(wl)
+        wid = "late%d" % li
+        subs = [alloc_sub(chk, rng, wl, wid, RM.MODES[(li + j) % 8],
+                          [d.to_json()], unit=sym) for j in range(6)]
+        pre = [{"id": "DataVolume",
+                "e": ["g", "quantity.predefined:DataVolume"]}]
+
+        def on_ok():
+            chk.count("allocations in a unit declared late in a quantized "
+                      "type", 6)
+        cases.append(world_program(chk, [d], subs, wid, on_ok=on_ok,
+                                   extra_pre=pre))
+    chk.require("allocations in a unit declared late in a quantized type")
+    run_cases(chk, R, cases)
